@@ -215,7 +215,7 @@ def lemma_cell_volumes_sum(U):
     for name, vol in (("polar", lambda x: PI * x * x), ("spherical", lambda x: 4 * PI / 3 * x * x * x)):
         cell = lambda rc: vol(rc + h / 2) - vol(rc - h / 2)
         U.prove(f"{name}.two_consecutive_shells_telescope", [h > 0], cell(r) + cell(r + h) == vol(r + 3 * h / 2) - vol(r - h / 2))
-    U.assume_note("sum over all cells = volume(r_outer) - volume(r_inner) by induction on the number of cells (meta-level), cell measures proved in C05 (V)")
+    U.assume_note("sum over all cells = volume(r_outer) - volume(r_inner): proved in Lean (lean/Partition.lean: cell_volumes_sum, thorough tier); cell measures proved in C05 (V)")
 
 
 UNITS = [
@@ -234,6 +234,18 @@ UNITS = [
     ("lemma.cell_volumes_sum", lemma_cell_volumes_sum),
 ]
 
+
+
+def lemma_lean_partition(U):
+    """the summation step (induction on the number of cells / chunks) in Lean 4 + Mathlib: lean/Partition.lean"""
+    import os
+
+    from ..runner import VERIF
+    U.lean_file(os.path.join(VERIF, "lean", "Partition.lean"), only=['cell_volumes_sum'])
+
+
+UNITS = list(UNITS) + [("lemma.lean.partition", lemma_lean_partition)]
+THOROUGH_ONLY = set(globals().get("THOROUGH_ONLY", ())) | {"lemma.lean.partition"}
 
 def bounded(tier, seed):
     from ..runner import native
